@@ -281,7 +281,7 @@ class Folder:
             return ('strmethod', obj, name)
         if isinstance(obj, bytes) and name in ('decode', 'startswith', 'endswith', 'strip', 'rstrip', 'split', 'find'):
             return ('strmethod', obj, name)
-        if isinstance(obj, dict) and name in ('get', 'items', 'keys', 'values'):
+        if isinstance(obj, dict) and name in ('get', 'items', 'keys', 'values', 'update', 'pop', 'setdefault', 'copy', 'clear', 'popitem'):
             return ('strmethod', obj, name)
         if isinstance(obj, tuple) and len(obj) == 2 and obj[0] == 'pymodule' and obj[1] == 're':
             import re as _re
@@ -362,7 +362,11 @@ class Folder:
             elif p in kw:
                 env[p] = kw[p]
             elif p in dmap:
-                env[p] = self._eval(dmap[p], {}, mod, ci)
+                # default values are evaluated once, when the function is defined (a mutable default is shared by all calls)
+                dc = self.__dict__.setdefault('_default_cache', {})
+                if id(dmap[p]) not in dc:
+                    dc[id(dmap[p])] = self._eval(dmap[p], {}, mod, ci)
+                env[p] = dc[id(dmap[p])]
             else:
                 raise Unsupported(f'missing argument {p} for {fn.name}')
         is_gen = any(isinstance(x, (ast.Yield, ast.YieldFrom)) for x in _own_nodes(fn))
@@ -616,6 +620,11 @@ class Folder:
             self._fresh.add(id(obj))
             self._keep.append(obj)
             self._invoke(c.module, c, init, obj, args, kw)
+            return obj
+        if init is None and not args and not kw and self.allow_loops:
+            obj = DV(ci, {})        # no constructor in the package: object() semantics
+            self._fresh.add(id(obj))
+            self._keep.append(obj)
             return obj
         raise Unsupported(f'constructor of {ci.name}')
 
